@@ -221,6 +221,21 @@ theorem wcaDmax_closed_form (d0 : ℝ) (N k : ℕ) :
 theorem wcaDmax_one_iteration (d0 : ℝ) : wcaDmax d0 1 = 0 := by
   rw [wcaDmax_real]; simp
 
+/-- FA: after `k` updates `alpha = alpha0 · ((1/900) ^ (1/N)) ^ k` -/
+theorem faAlpha_closed_form (alpha0 : ℝ) (N k : ℕ) :
+    (fun a => faAlpha a N)^[k] alpha0 = alpha0 * (((1 : ℝ) / 900) ^ ((1 : ℝ) / (N : ℝ))) ^ k := by
+  induction k with
+  | zero => simp
+  | succ k ih => rw [Function.iterate_succ_apply', ih, faAlpha_real]; ring
+
+/-- FA: a whole task of `N` iterations divides `alpha` by exactly 900 (over `ℝ`) -/
+theorem faAlpha_whole_task (alpha0 : ℝ) (N : ℕ) (hN : 0 < N) :
+    (fun a => faAlpha a N)^[N] alpha0 = alpha0 / 900 := by
+  rw [faAlpha_closed_form]
+  have hN' : (N : ℝ) ≠ 0 := by exact_mod_cast hN.ne'
+  rw [← Real.rpow_natCast, ← Real.rpow_mul (by norm_num), one_div_mul_cancel hN', Real.rpow_one]
+  ring
+
 /-! satisfiability of the hypotheses, on concrete numbers -/
 
 example : (0 : ℕ) < 20 ∧ (7 : ℕ) ≤ 20 ∧ (0.4 : ℝ) ≤ 0.9 := by norm_num
@@ -259,5 +274,7 @@ example : successLoop [(1 : ℕ), 5, 2] [3, 4, 9] = 2 := by decide
 #print axioms saT_closed_form
 #print axioms wcaDmax_closed_form
 #print axioms wcaDmax_one_iteration
+#print axioms faAlpha_closed_form
+#print axioms faAlpha_whole_task
 
 end Opy
